@@ -35,8 +35,10 @@ MANIFEST = dict(
 )
 
 IMP_CS = ['Coq.Lists.List', 'Coq.NArith.NArith', 'Coq.ZArith.ZArith', 'Coq.Bool.Bool', 'SV.Fmt.CmdSeq', 'SV.Gen.CmdSeqFmt_gen']
-IMP_SMD = ['Coq.Lists.List', 'Coq.NArith.NArith', 'Coq.Arith.PeanoNat', 'SV.Fmt.SmdTpl', 'SV.Gen.SmdTpl_gen']
+IMP_SMD = ['Coq.Lists.List', 'Coq.NArith.NArith', 'Coq.Arith.PeanoNat', 'Coq.Bool.Bool', 'SV.Fmt.SmdTpl', 'SV.Fmt.SmdWords', 'SV.Gen.SmdTpl_gen']
 IMP_IMG = ['Coq.Lists.List', 'Coq.NArith.NArith', 'Coq.Bool.Bool', 'SV.Fmt.ScenesImage']
+IMP_TXT = ['Coq.Lists.List', 'Coq.NArith.NArith', 'Coq.Bool.Bool', 'SV.Fmt.TextFields', 'SV.Gen.TextFields_gen']
+IMP_CB = ['Coq.Lists.List', 'Coq.NArith.NArith', 'Coq.Bool.Bool', 'Coq.Arith.PeanoNat', 'SV.Fmt.ChoreoBin', 'SV.Gen.ChoreoBin_gen']
 IMP_IMGCFG = ['Coq.Lists.List', 'Coq.NArith.NArith', 'Coq.Bool.Bool', 'SV.Fmt.ScenesImage', 'SV.Fmt.ScenesImageCfg', 'SV.Gen.ScenesImg_gen']
 
 PRE = '''Import ListNotations. Open Scope N_scope.
@@ -45,6 +47,33 @@ Definition onl_eqb (a b : option (list N)) : bool := match a, b with Some x, Som
 Fixpoint bad_idx {A} (f : A -> bool) (n : N) (l : list A) : list N := match l with [] => [] | x :: r => (if f x then [] else [n]) ++ bad_idx f (n + 1) r end.
 Definition unrle (l : list (N * N)) : list N := flat_map (fun p => repeat (fst p) (N.to_nat (snd p))) l.
 '''
+
+
+def theorems_async(ck: Ck, props_file: str):
+    """Ck.theorems with the slow part (one coqc printing the assumptions of every theorem) running in a thread while the
+    correspondences are evaluated; the returned function joins and records the obligations (same records, fixed position)."""
+    import re
+    import threading
+    from harness.common import ROCQ, _split_assumptions
+    txt = (ROCQ / props_file).read_text()
+    names = re.findall(r'^\s*(?:Theorem|Lemma|Corollary)\s+([A-Za-z0-9_\']+)', txt, re.M)
+    mod = 'SV.' + props_file[:-2].replace('/', '.')
+    body = f'Require Import {mod}.\n' + ''.join(f'Print Assumptions {n}.\n' for n in names)
+    box: dict = {}
+    th = threading.Thread(target=lambda: box.update(res=ck.coq_scratch(body, 'assumptions')))
+    th.start()
+
+    def finish() -> None:
+        th.join()
+        rc, out = box.get('res', (1, 'thread failed'))
+        if rc != 0:
+            ck.obligation(f'assumptions:{props_file}', False, out[-2000:])
+            ck.tie_broken.append(f'Print Assumptions failed for {props_file}')
+            return
+        for n, b in zip(names, _split_assumptions(out, len(names))):
+            ck.axioms[n] = b
+            ck.obligation(f'theorem:{n}', True, 'Qed; axioms: ' + ('none (closed under the global context)' if not b else ', '.join(b)))
+    return finish
 
 
 def par_eval(ck: Ck, jobs: list[tuple]) -> list:
@@ -156,7 +185,7 @@ def cs_nonrepresentable(rng: random.Random, spec: dict) -> dict:
 
 
 def corr_cmdseq_write(ck: Ck) -> list[tuple[dict, bytes]]:
-    n = ck.budget(60, 1500)
+    n = ck.budget(40, 600)
     cases = []
     files = []
     for i in range(n):
@@ -178,11 +207,11 @@ def corr_cmdseq_write(ck: Ck) -> list[tuple[dict, bytes]]:
     ck.sample({'cmdseq_value': cases[0][0], 'impl_bytes_rle': cases[0][1][:300]})
     bad: list[int] = []
     jobs = []
-    for lo in range(0, len(cases), 30):
-        part = cases[lo:lo + 30]
+    for lo in range(0, len(cases), 45):
+        part = cases[lo:lo + 45]
         lit = coq_list(f'({cs_coq_value(s)}, {e})' for s, e in part)
         jobs.append((IMP_CS, [f'bad_idx (fun c : seqs * option (list N) => onl_eqb (write gen_cfg (fst c)) (snd c)) 0 {lit}'], f'cswrite{lo}', PRE_CS))
-    for lo, vals in zip(range(0, len(cases), 30), par_eval(ck, jobs)):
+    for lo, vals in zip(range(0, len(cases), 45), par_eval(ck, jobs)):
         if vals is None:
             ck.obligation('correspondence:cmdseq-write', False, 'model could not be evaluated')
             ck.tie_broken.append('correspondence cmdseq write: model evaluation failed')
@@ -261,7 +290,7 @@ def cs_mutate(rng: random.Random, data: bytes) -> tuple[str, bytes]:
 
 
 def corr_cmdseq_parse(ck: Ck, files: list[tuple[dict, bytes]]) -> None:
-    n = ck.budget(90, 2000)
+    n = ck.budget(60, 800)
     cases = []
     base = [d for _, d in files if len(d) < 6000] or [U.cmdseq_write({})]
     for i in range(n):
@@ -278,11 +307,11 @@ def corr_cmdseq_parse(ck: Ck, files: list[tuple[dict, bytes]]) -> None:
             ck.seen(('csp', data))
     bad: list[int] = []
     jobs = []
-    for lo in range(0, len(cases), 30):
-        part = cases[lo:lo + 30]
+    for lo in range(0, len(cases), 60):
+        part = cases[lo:lo + 60]
         lit = coq_list(f'(unrle {rle(d)}, {e})' for _, d, e in part)
         jobs.append((IMP_CS, [f'bad_idx (fun c : list N * option (list N) => onl_eqb (option_map flat (parse gen_cfg (fst c))) (snd c)) 0 {lit}'], f'csparse{lo}', PRE_CS))
-    for lo, vals in zip(range(0, len(cases), 30), par_eval(ck, jobs)):
+    for lo, vals in zip(range(0, len(cases), 60), par_eval(ck, jobs)):
         if vals is None:
             ck.obligation('correspondence:cmdseq-parse', False, 'model could not be evaluated')
             ck.tie_broken.append('correspondence cmdseq parse: model evaluation failed')
@@ -351,7 +380,7 @@ def image_case(rng: random.Random):
 def corr_image(ck: Ck) -> None:
     from srctools import binformat
     from srctools.choreo import save_scenes_image_sync, parse_scenes_image
-    n = ck.budget(60, 1500)
+    n = ck.budget(45, 600)
     wcases = []
     pcases = []
     for _ in range(n):
@@ -411,11 +440,11 @@ def corr_image(ck: Ck) -> None:
     ck.sample({'scenes_image_container_case': wcases[0][2], 'impl_file_hex': bytes(parse_coq_N_list(wcases[0][1])).hex()[:400]})
     bad: list[int] = []
     jobs = []
-    for lo in range(0, len(wcases), 40):
-        part = wcases[lo:lo + 40]
+    for lo in range(0, len(wcases), 50):
+        part = wcases[lo:lo + 50]
         lit = coq_list(f'({a}, {b})' for a, b, _ in part)
         jobs.append((IMP_IMG, [f'bad_idx (fun c : (N * list (list N) * list entry) * list N => let \'(v, pool, es) := fst c in nl_eqb (img_write_py v pool es) (snd c)) 0 {lit}'], f'imgwrite{lo}', PRE_IMG))
-    for lo, vals in zip(range(0, len(wcases), 40), par_eval(ck, jobs)):
+    for lo, vals in zip(range(0, len(wcases), 50), par_eval(ck, jobs)):
         if vals is None:
             ck.obligation('correspondence:scenes-image-write', False, 'model could not be evaluated')
             ck.tie_broken.append('correspondence scenes.image write: model evaluation failed')
@@ -439,15 +468,20 @@ def corr_image(ck: Ck) -> None:
     pre = PRE_IMG + '''
 Definition flat_p2 (p : pentry) : list N :=
   [p_crc p; p_dur p mod 4294967296; p_last p mod 4294967296] ++ N.of_nat (length (p_sounds p)) :: flat_map fs (p_sounds p) ++ fs (p_blob p).
+(* parse_scenes_image returns a dict keyed by checksum: a later record with the same checksum (malformed files only)
+   replaces the earlier one in place *)
+Fixpoint dict_ins (p : pentry) (l : list pentry) : list pentry :=
+  match l with [] => [p] | h :: t => if p_crc h =? p_crc p then p :: t else h :: dict_ins p t end.
+Definition dict_of (ps : list pentry) : list pentry := fold_left (fun acc p => dict_ins p acc) ps [].
 Definition flat_img2 (r : N * list (list N) * list pentry) : list N :=
-  let '(v, pool, ps) := r in v :: N.of_nat (length ps) :: flat_map flat_p2 ps.
+  let '(v, pool, ps) := r in v :: N.of_nat (length (dict_of ps)) :: flat_map flat_p2 (dict_of ps).
 '''
     fixed = plits
     jobs = []
-    for lo in range(0, len(fixed), 60):
-        part = fixed[lo:lo + 60]
+    for lo in range(0, len(fixed), 70):
+        part = fixed[lo:lo + 70]
         jobs.append((IMP_IMG, [f'bad_idx (fun c : list N * option (list N) => onl_eqb (option_map flat_img2 (img_parse (fst c))) (snd c)) 0 {coq_list(part)}'], f'imgparse{lo}', pre))
-    for lo, vals in zip(range(0, len(fixed), 60), par_eval(ck, jobs)):
+    for lo, vals in zip(range(0, len(fixed), 70), par_eval(ck, jobs)):
         if vals is None:
             ck.obligation('correspondence:scenes-image-parse', False, 'model could not be evaluated')
             ck.tie_broken.append('correspondence scenes.image parse: model evaluation failed')
@@ -476,7 +510,7 @@ def corr_image_pool(ck: Ck) -> None:
     entries sharing a pool plus scene-backed entries, values struct.pack refuses."""
     from srctools import binformat
     from srctools.choreo import Entry, CRC, save_scenes_image_sync
-    n = ck.budget(40, 600)
+    n = ck.budget(40, 300)
     cases = []
     for _ in range(n):
         rng = ck.rng
@@ -553,16 +587,22 @@ def corr_image_pool(ck: Ck) -> None:
         final_pool = list(pool_obj)
         if data is not None and not any(isinstance(e._data, tuple) for e in ents):
             # no raw entry: the writer used a pool of its own; take it from the file (strings only, through the offset table)
-            fh = io.BytesIO(data)
-            fh.seek(12)
-            [npool] = struct.unpack('<i', fh.read(4))
-            fh.seek(20)
-            final_pool = binformat.read_offset_array(fh, npool, 'latin1')
+            try:
+                fh = io.BytesIO(data)
+                fh.seek(12)
+                [npool] = struct.unpack('<i', fh.read(4))
+                fh.seek(20)
+                final_pool = binformat.read_offset_array(fh, npool, 'latin1')
+            except Exception:       # a broken writer: the model comparison below reports it
+                final_pool = list(pool_obj)
         for k, e, req in zip(keys, ents, strs):
             if isinstance(e._data, tuple):
                 raw = e._data[0]
             else:
-                raw = e._data.export_binary(binformat.find_or_insert(list(final_pool), lambda x: x))   # pool is complete: lookups only
+                try:
+                    raw = e._data.export_binary(binformat.find_or_insert(list(final_pool), lambda x: x))   # pool is complete: lookups only
+                except Exception:
+                    raw = b''
             comp = binformat.compress_lzma(raw)
             stored = comp if len(comp) < len(raw) else raw
             snds = coq_list(nl(x.encode('latin1')) for x in e.sounds)
@@ -580,12 +620,12 @@ def corr_image_pool(ck: Ck) -> None:
     ck.sample({'scenes_image_pool_case': cases[0][1]})
     bad: list[int] = []
     jobs = []
-    for lo in range(0, len(cases), 25):
-        part = cases[lo:lo + 25]
+    for lo in range(0, len(cases), 40):
+        part = cases[lo:lo + 40]
         lit = coq_list(c for c, _ in part)
         jobs.append((IMP_IMGCFG, ['bad_idx (fun c : (bool * N) * list (list N) * list (N * sentry) * option (list N) => '
                                   'let \'(dv, p0, kes, e) := c in onl_eqb (img_save_s si_gen_cfg (fst dv) (snd dv) p0 kes) e) 0 ' + lit], f'imgpool{lo}', PRE))
-    for lo, vals in zip(range(0, len(cases), 25), par_eval(ck, jobs)):
+    for lo, vals in zip(range(0, len(cases), 40), par_eval(ck, jobs)):
         if vals is None:
             ck.obligation('correspondence:scenes-image-pool-and-sort', False, 'model could not be evaluated')
             ck.tie_broken.append('correspondence scenes.image pool/sort: model evaluation failed')
@@ -598,6 +638,185 @@ def corr_image_pool(ck: Ck) -> None:
     if bad:
         ck.tie_broken.append('correspondence scenes.image pool/sort (Fmt/ScenesImageCfg.v img_save_s over Gen/ScenesImg_gen.v vs save_scenes_image_sync)')
         ck.extra['image_pool_disagreement'] = cases[bad[0]][1]
+
+
+# ================================================================================================ binary choreo correspondence
+
+def _f32bits(x: float) -> int:
+    return struct.unpack('<I', struct.pack('<f', x))[0]
+
+
+def cb_scene_value(sc, pool: list[str]) -> str:
+    """A binary-mode scene as the value tree of Fmt/ChoreoBin.v `scene_lay` (raw field values; the pool is complete)."""
+    from srctools.choreo import GestureEvent, LoopEvent, SpeakEvent, CaptionType
+    ix = pool.index
+
+    def q(v: float, fac: float, top: int) -> int:
+        return min(top, max(0, round(v * fac)))
+
+    def curve(c) -> str:
+        return 'BL ' + coq_list(f'BN {nl([_f32bits(s.time), q(s.value, 255.0, 255)])} BE' for s in c.ramp) + ' BE'
+
+    def tags(ts, fac: float, top: int) -> str:
+        return 'BL ' + coq_list(f'BN {nl([ix(t.name), q(t.value, fac, top)])} BE' for t in ts) + ' BE'
+
+    def samples(ss) -> str:
+        return coq_list(f'BN {nl([_f32bits(s.time), q(s.value, 255.0, 255), s.curve_type.export_binary()])} BE' for s in ss)
+
+    def flex(t) -> str:
+        flags = (1 if t.active else 0) | (2 if t.dir_track is not None else 0)
+        tail = 'BE' if t.dir_track is None else f'(BL {samples(t.dir_track)} BE)'
+        return f'BS (BN {nl([ix(t.name), flags, _f32bits(t.min), _f32bits(t.max)])} (BL {samples(t.mag_track)} {tail})) BE'
+
+    def event(e) -> str:
+        if isinstance(e, LoopEvent):
+            tail = f'(BN {nl([e.loop_count & 0xFF])} BE)'
+        elif isinstance(e, SpeakEvent):
+            fl = (1 if (e.caption_type is not CaptionType.Disabled and e.use_combined_file) else 0) | (2 if e.use_gender_token else 0) \
+                | (4 if e.suppress_caption_attenuation else 0)
+            tail = f'(BN {nl([e.caption_type.value & 0xFF, ix(e.cc_token), fl])} BE)'
+        else:
+            tail = 'BE'
+        if e.tag_name is not None or e.tag_wav_name is not None:
+            rel = f'(Some (BN {nl([ix(e.tag_name or ""), ix(e.tag_wav_name or "")])} BE))'
+        else:
+            rel = 'None'
+        rest = f'(BO {rel} (BL {coq_list(flex(t) for t in e.flex_anim_tracks)} {tail}))'
+        if isinstance(e, GestureEvent):
+            rest = f'(BN {nl([_f32bits(e.gesture_sequence_duration)])} {rest})'
+        head = [e.type.value & 0xFF, ix(e.name), _f32bits(e.start_time), _f32bits(e.end_time)] + [ix(p) for p in e.parameters]
+        return (f'BN {nl(head)} (BS ({curve(e.ramp)}) (BN {nl([e.flags.value, _f32bits(e.dist_to_targ)])} '
+                f'(BS ({tags(e.relative_tags, 255.0, 255)}) (BS ({tags(e.timing_tags, 255.0, 255)}) '
+                f'(BS ({tags(e.absolute_playback_tags, 4096.0, 65535)}) (BS ({tags(e.absolute_shifted_tags, 4096.0, 65535)}) {rest}))))))')
+
+    def channel(c) -> str:
+        return f'BN {nl([ix(c.name)])} (BL {coq_list(f"BS ({event(e)}) BE" for e in c.events)} (BN {nl([int(c.active)])} BE))'
+
+    def actor(a) -> str:
+        return f'BN {nl([ix(a.name)])} (BL {coq_list(f"BS ({channel(c)}) BE" for c in a.channels)} (BN {nl([int(a.active)])} BE))'
+    from srctools.choreo import BINARY_VERSION
+    return (f'BN {nl([int.from_bytes(b"bvcd", "little"), BINARY_VERSION, sc.text_crc])} (BL {coq_list(f"BS ({event(e)}) BE" for e in sc.events)} '
+            f'(BL {coq_list(f"BS ({actor(a)}) BE" for a in sc.actors)} (BS ({curve(sc.ramp)}) (BN {nl([int(sc.ignore_phonemes)])} BE))))')
+
+
+def corr_choreo_bin(ck: Ck) -> None:
+    """`enc (scene_lay ...)` of Fmt/ChoreoBin.v vs Scene.export_binary, byte for byte, and `dec` of those bytes gives the value back."""
+    from srctools import binformat
+    n = ck.budget(40, 400)
+    cases = []
+    for _ in range(n):
+        spec = U.scene_gen(ck.rng, 'binary', flex_p=0.3)
+        try:
+            sc = U.scene_build(spec)
+        except Exception:
+            ck.count('generator_rejected_by_constructor')
+            continue
+        pool: list[str] = []
+        data = sc.export_binary(binformat.find_or_insert(pool, lambda x: x))
+        cases.append((cb_scene_value(sc, pool), data, spec))
+        ck.count('choreo_bin_cases')
+        ck.hist('choreo_bin_events', sum(1 for _ in sc.iter_events()))
+        if len(data) > 60:
+            ck.seen(('cb', data))
+    if not cases:
+        ck.obligation('correspondence:vcd-binary-layout', False, 'no scene could be built')
+        return
+    pre = PRE + 'Definition L := scene_lay cb_type_gesture cb_type_loop cb_type_speak.\n' \
+        'Definition okcase (c : bval * list N) : bool := match enc L [] (fst c) with Some b => nl_eqb b (snd c) && ' \
+        'match dec L [] b with Some (_, []) => true | _ => false end | None => false end.\n'
+    jobs = []
+    for lo in range(0, len(cases), 20):
+        part = cases[lo:lo + 20]
+        jobs.append((IMP_CB, ['bad_idx okcase 0 ' + coq_list(f'({v}, {nl(d)})' for v, d, _ in part)], f'cbenc{lo}', pre))
+    bad: list[int] = []
+    for lo, vals in zip(range(0, len(cases), 20), par_eval(ck, jobs)):
+        if vals is None:
+            ck.obligation('correspondence:vcd-binary-layout', False, 'model could not be evaluated')
+            ck.tie_broken.append('correspondence binary choreo layout: model evaluation failed')
+            return
+        bad += [lo + i for i in parse_coq_N_list(vals[0])]
+    ck.obligation('correspondence:vcd-binary-layout', not bad,
+                  f'{len(cases)} generated binary scenes: enc (scene_lay) of the raw field values vs Scene.export_binary bytes, and dec consumes them '
+                  f'completely: {len(bad)} disagreements')
+    if bad:
+        ck.tie_broken.append('correspondence binary choreo layout (Fmt/ChoreoBin.v scene_lay vs Scene.export_binary)')
+        ck.extra['choreo_bin_disagreement'] = {'spec': cases[bad[0]][2], 'impl_hex': cases[bad[0]][1].hex()[:800]}
+
+
+# ================================================================================================ Entry.from_scene correspondence
+
+def corr_summary(ck: Ck) -> None:
+    """`summary_of` of Fmt/SceneSummary.v vs Entry.from_scene on generated binary scenes (float32 times, exact)."""
+    from fractions import Fraction
+    from srctools.choreo import Entry, EventType, CaptionType, SpeakEvent
+    n = ck.budget(60, 600)
+    cases = []
+    SC = 2 ** 160
+
+    def scaled(x: float) -> int | None:
+        f = Fraction(x) * SC
+        return int(f) if f.denominator == 1 and f >= 0 else None
+    for _ in range(n):
+        spec = U.scene_gen(ck.rng, 'binary', flex_p=0.0)
+        try:
+            sc = U.scene_build(spec)
+        except Exception:
+            ck.count('generator_rejected_by_constructor')
+            continue
+        # equal times, exact halves of a millisecond and events without end are rare in the generator: force some
+        evs = list(sc.iter_events())
+        for e in evs:
+            r = ck.rng.random()
+            if r < 0.15:
+                e.end_time = U.f32(ck.rng.choice([0.0005, 0.0015, 1.0005, 2.5, 0.25]) * ck.rng.choice([1, 2, 3]))
+            elif r < 0.25:
+                e.end_time = -1.0
+        lits = []
+        ok = True
+        for e in evs:
+            st, en = scaled(e.start_time), (0 if e.end_time == -1.0 else scaled(e.end_time))
+            if st is None or en is None:
+                ok = False
+                break
+            sp = isinstance(e, SpeakEvent)
+            lits.append(f'mkSev {e.type.value} ({st})%Z ({en})%Z {str(e.end_time != -1.0).lower()} {nl(map(ord, e.parameters[0]))} '
+                        f'{e.caption_type.value if sp else 0} {nl(map(ord, e.cc_token)) if sp else "[]"} {str(bool(sp and e.use_combined_file)).lower()}')
+        if not ok:
+            ck.count('summary_time_not_representable')
+            continue
+        ent = Entry.from_scene('x.vcd', sc)
+        exp = f'(({ent.duration_ms})%Z, ({ent.last_speak_ms})%Z, {coq_list(nl(map(ord, x)) for x in ent.sounds)})'
+        cases.append((f'({coq_list(lits)}, {exp})', {'spec': spec, 'summary': [ent.duration_ms, ent.last_speak_ms, list(ent.sounds)]}))
+        ck.count('summary_cases')
+        ck.hist('summary_events', len(evs))
+        if len(evs) >= 2:
+            ck.seen(('sum', json.dumps(spec, sort_keys=True)))
+    if not cases:
+        ck.obligation('correspondence:scene-summary', False, 'no scene could be built')
+        return
+    pre = PRE + ('Require Import Coq.ZArith.ZArith.\n'
+                 'Fixpoint ll_eqb (a b : list (list N)) : bool := match a, b with [], [] => true | x :: a\', y :: b\' => nl_eqb x y && ll_eqb a\' b\' '
+                 '| _, _ => false end.\n'
+                 'Definition okc (c : list sev * (Z * Z * list (list N))) : bool :=\n'
+                 f'  let \'(d, l, s) := summary_of {EventType.Speak.value} {CaptionType.Master.value} {CaptionType.Slave.value} (fst c) in\n'
+                 '  let \'(d2, l2, s2) := snd c in Z.eqb d d2 && Z.eqb l l2 && ll_eqb s s2.\n')
+    jobs = []
+    for lo in range(0, len(cases), 60):
+        jobs.append((['Coq.Lists.List', 'Coq.NArith.NArith', 'Coq.Bool.Bool', 'SV.Fmt.SceneSummary'],
+                     ['bad_idx okc 0 ' + coq_list(c for c, _ in cases[lo:lo + 60])], f'summary{lo}', pre))
+    bad: list[int] = []
+    for lo, vals in zip(range(0, len(cases), 60), par_eval(ck, jobs)):
+        if vals is None:
+            ck.obligation('correspondence:scene-summary', False, 'model could not be evaluated')
+            ck.tie_broken.append('correspondence scene summary: model evaluation failed')
+            return
+        bad += [lo + i for i in parse_coq_N_list(vals[0])]
+    ck.obligation('correspondence:scene-summary', not bad,
+                  f'{len(cases)} generated scenes (float32 times, exact halves of a millisecond, events without end time, caption variants): '
+                  f'summary_of (Fmt/SceneSummary.v) vs Entry.from_scene (duration_ms, last_speak_ms, sounds): {len(bad)} disagreements')
+    if bad:
+        ck.tie_broken.append('correspondence scene summary (Fmt/SceneSummary.v summary_of vs Entry.from_scene)')
+        ck.extra['summary_disagreement'] = cases[bad[0]][1]
 
 
 # ================================================================================================ oracle search
@@ -795,8 +1014,8 @@ def sample_files(ck: Ck) -> None:
 
 # ================================================================================================ main
 
-QUICK = {'cmdseq': 150, 'smd': 500, 'sndscript': 500, 'vmt': 600, 'pcf': 300, 'vcd-text': 200, 'vcd-binary': 400, 'scenes-image': 60}
-THOROUGH_FACTOR = {'vcd-text': 37, 'scenes-image': 42}
+QUICK = {'cmdseq': 150, 'smd': 500, 'sndscript': 500, 'vmt': 600, 'pcf': 300, 'vcd-text': 160, 'vcd-binary': 400, 'scenes-image': 50}
+THOROUGH_FACTOR = {'vcd-text': 25, 'scenes-image': 24}
 
 
 def run(ck: Ck) -> None:
@@ -825,12 +1044,13 @@ def run(ck: Ck) -> None:
     ok1 = ck.translate('CmdSeqFmt_gen', T.translate_cmdseq)
     ok2 = ck.translate('SmdTpl_gen', T.translate_smd)
     ok3 = ck.translate('ScenesImg_gen', T.translate_scenes_image)
+    ok4 = ck.translate('TextFields_gen', T.translate_text_writers)
+    ok5 = ck.translate('ChoreoBin_gen', T.translate_choreo_bin)
     built = ck.build(['Props/C20.vo'] + (['Gen/CmdSeqFmt_gen.vo'] if ok1 else []) + (['Gen/SmdTpl_gen.vo'] if ok2 else [])
-                     + (['Gen/ScenesImg_gen.vo'] if ok3 else []))
+                     + (['Gen/ScenesImg_gen.vo'] if ok3 else []) + (['Gen/TextFields_gen.vo'] if ok4 else [])
+                     + (['Gen/ChoreoBin_gen.vo'] if ok5 else []))
     lap('translate+build')
-    if built:
-        ck.theorems('Props/C20.v')
-    lap('print-assumptions')
+    finish_theorems = theorems_async(ck, 'Props/C20.v') if built else None
     def tie(res: dict, what: str) -> None:
         if not all(res.values()):
             ck.tie_broken.append(f'instance obligations about {what} fail: ' + ', '.join(k for k, v in res.items() if not v))
@@ -851,13 +1071,59 @@ def run(ck: Ck) -> None:
         lap('corr-cmdseq-write')
         corr_cmdseq_parse(ck, files)
         lap('corr-cmdseq-parse')
+    # the three template / path censuses are evaluated by one coqc (fewer processes); a failing group is named by its obligations
+    m_imps: list[str] = []
+    m_obs: dict[str, str] = {}
+    m_what: list[str] = []
     if built and ok2:
-        tie(ck.instance_obligations(IMP_SMD, {
+        m_imps += IMP_SMD
+        m_what.append('smd.py Mesh.export')
+        m_obs.update({
             'smd_numeric_fields_separated': 'forallb line_ok smd_lines',
             'smd_every_line_terminated': 'Nat.eqb smd_unterminated_lines 0',
             'smd_line_census_nonempty': 'Nat.leb 10 (length smd_lines)',
-        }, name='smd'), 'smd.py Mesh.export')
-    lap('instance-smd')
+            'smd_every_conversion_delimited_by_whitespace_except_the_quoted_bone_name_line':
+                'forallb (fun l => delim true l || has_quote l) smd_lines && Nat.leb (length (filter has_quote smd_lines)) 1',
+        })
+    if built and ok4:
+        m_imps += IMP_TXT
+        m_what.append('the text writers (sndscript.py, vmt.py, choreo.py export_text)')
+        m_obs.update({
+            'sndscript_free_text_and_low_high_pairs_between_quotes': 'free_text_quoted snd_fields',
+            'sndscript_no_escape_outside_quotes': 'no_escape_outside_quotes snd_fields',
+            'sndscript_every_stack_block_written_from_the_attribute_it_is_read_into': 'stacks_paired snd_stacks_written snd_stacks_read',
+            'sndscript_field_census_nonempty': 'Nat.leb 5 (length snd_fields) && Nat.leb 3 (length snd_stacks_written)',
+            'vmt_free_text_quoted_or_quoted_on_demand_except_shader': 'free_text_quoted_or_on_demand 1 vmt_fields',
+            'vmt_field_census_nonempty': 'Nat.leb 5 (length vmt_fields)',
+            'vcd_text_free_text_escaped_and_quoted': 'free_text_escaped cho_fields',
+            'vcd_text_no_escape_outside_quotes': 'no_escape_outside_quotes cho_fields',
+            'vcd_text_block_keywords_are_literals_outside_quotes': 'keywords_bare cho_fields',
+            'vcd_text_field_census_nonempty': 'Nat.leb 40 (length cho_fields)',
+        })
+    if built and ok5:
+        m_imps += IMP_CB
+        m_what.append('choreo.py export_binary / parse_binary')
+        lay = {'Scene': 'scene_lay cb_type_gesture cb_type_loop cb_type_speak', 'Actor': 'actor_lay cb_type_gesture cb_type_loop cb_type_speak',
+               'Channel': 'channel_lay cb_type_gesture cb_type_loop cb_type_speak', 'Event': 'event_lay cb_type_gesture cb_type_loop cb_type_speak',
+               'FlexAnimTrack': 'flex_lay', 'Curve': 'curve_lay', 'Tag': 'tag_lay', 'TimingTag': 'tag_lay', 'AbsoluteTag': 'abstag_lay'}
+        for c in T._BIN_CLASSES:
+            m_obs[f'vcd_binary_{c}_writer_and_reader_walk_the_same_field_widths'] = f'paths_eqb cb_{c}_w cb_{c}_r && negb (Nat.eqb (length cb_{c}_w) 0)'
+            m_obs[f'vcd_binary_{c}_layout_model_has_exactly_the_paths_of_the_code'] = \
+                f'paths_eqb (paths_of ({lay[c]})) cb_{c}_w && paths_eqb (paths_of ({lay[c]})) cb_{c}_r'
+        m_obs['vcd_binary_all_record_classes_agree'] = 'classes_agree cb_classes'
+        m_obs['vcd_binary_event_kinds_with_extra_fields_agree'] = (
+            'cb_nl_eqb cb_kinds_w cb_kinds_r && existsb (N.eqb cb_type_gesture) cb_kinds_r && existsb (N.eqb cb_type_loop) cb_kinds_r '
+            '&& existsb (N.eqb cb_type_speak) cb_kinds_r && negb (N.eqb cb_type_gesture cb_type_loop) && negb (N.eqb cb_type_loop cb_type_speak) '
+            '&& negb (N.eqb cb_type_gesture cb_type_speak)')
+    if m_obs:
+        tie(ck.instance_obligations(list(dict.fromkeys(m_imps)), m_obs, name='tpl'), ' / '.join(m_what))
+    lap('instance-smd+text+choreo-bin')
+    if built and ok5:
+        corr_choreo_bin(ck)
+    lap('corr-choreo-bin')
+    if built:
+        corr_summary(ck)
+    lap('corr-summary')
     if built:
         corr_image(ck)
     lap('corr-image')
@@ -886,11 +1152,14 @@ def run(ck: Ck) -> None:
         lap('instance-image')
         corr_image_pool(ck)
         lap('corr-image-pool')
+    if finish_theorems is not None:
+        finish_theorems()
+    lap('print-assumptions(join)')
     # ---- search (always; larger when a tie is broken)
     for name, q in QUICK.items():
         search_format(ck, name, ck.budget(q, q * THOROUGH_FACTOR.get(name, 25)))
         lap('search-' + name)
-    image_extra(ck, ck.budget(15, 300))
+    image_extra(ck, ck.budget(15, 150))
     sample_files(ck)
     lap('image-invariants+samples')
     ck.sample({'smd_lines_from_source': ck.extra.get('translated', {}).get('SmdTpl_gen', {}).get('lines', [])[:6]})
@@ -901,6 +1170,13 @@ def run(ck: Ck) -> None:
     if any(k.startswith('cmdseq:') for k in keys):
         for o in ('instance:cmdseq_', 'correspondence:cmdseq'):
             ck.explain(o)
+    if any(k.startswith(('vcd-binary:', 'scenes-image:read-error', 'scenes-image:value-diff', 'scenes-image:write-error')) for k in keys):
+        ck.explain('instance:vcd_binary_')
+        ck.explain('translate:ChoreoBin_gen')
+    for pre, ob in (('sndscript:', 'instance:sndscript_'), ('vmt:', 'instance:vmt_'), ('vcd-text:', 'instance:vcd_text_')):
+        if any(k.startswith(pre) and not k.endswith('flex-animation-block') for k in keys):
+            ck.explain(ob)
+            ck.explain('translate:TextFields_gen')
     if any(k.startswith('scenes-image:') for k in keys):
         ck.explain('correspondence:scenes-image')
         ck.explain('instance:image_')
